@@ -26,6 +26,11 @@ func valueFieldByName(v reflect.Value, fields []string) (out reflect.Value, ok b
 		v = v.Elem()
 	}
 
+	// only structures have fields
+	if v.Kind() != reflect.Struct || len(fields) == 0 {
+		return reflect.Value{}, false
+	}
+
 	out = v.FieldByName(fields[0])
 
 	// if pointer we dereference
@@ -35,11 +40,20 @@ func valueFieldByName(v reflect.Value, fields []string) (out reflect.Value, ok b
 		} else {
 			out = out.Elem()
 		}
+		// the pointed value is the one we are looking for
+		if len(fields) == 1 {
+			return out, out.IsValid()
+		}
 		return valueFieldByName(out, fields[1:])
 	}
 
 	if out.Kind() == reflect.Struct && len(fields) > 1 {
 		return valueFieldByName(out, fields[1:])
+	}
+
+	// the path goes on but there is nothing to go into
+	if len(fields) > 1 {
+		return reflect.Value{}, false
 	}
 
 	return out, out.IsValid()
@@ -49,8 +63,9 @@ func fieldByName(o Object, fpath []string) (i interface{}, ok bool) {
 	v := reflect.ValueOf(o)
 
 	v, ok = valueFieldByName(v, fpath)
-	if !ok {
-		return nil, ok
+	// unexported fields cannot be read
+	if !ok || !v.CanInterface() {
+		return nil, false
 	}
 
 	return v.Interface(), ok
